@@ -14,75 +14,75 @@ import KodaModel.Cache
 
 namespace Koda
 
-inductive CVar | cacheResult | result
+inductive KVar | cacheResult | result
 deriving DecidableEq, Repr, Inhabited
 
-inductive CMeth | getSync | setSync | getAsync | setAsync | other (name : String)
+inductive KMeth | getSync | setSync | getAsync | setAsync | other (name : String)
 deriving DecidableEq, Repr, Inhabited
 
-inductive CAttr | isJust | valA | other (name : String)
+inductive KAttr | isJust | valA | other (name : String)
 deriving DecidableEq, Repr, Inhabited
 
-inductive CExp
-  | var (v : CVar)
+inductive KExp
+  | var (v : KVar)
   | val                                      -- the parameter `val`
-  | selfMeth1 (m : CMeth) (a : CExp)         -- `self.m(a)`
-  | selfMeth2 (m : CMeth) (a b : CExp)       -- `self.m(a, b)`
-  | callValidator (a : CExp)                 -- `self.validator(a)`
-  | validatorAsync (a : CExp)                -- `self.validator.validate_async(a)`
-  | attr (e : CExp) (a : CAttr)
-  | await (e : CExp)
+  | selfMeth1 (m : KMeth) (a : KExp)         -- `self.m(a)`
+  | selfMeth2 (m : KMeth) (a b : KExp)       -- `self.m(a, b)`
+  | callValidator (a : KExp)                 -- `self.validator(a)`
+  | validatorAsync (a : KExp)                -- `self.validator.validate_async(a)`
+  | attr (e : KExp) (a : KAttr)
+  | await (e : KExp)
   | unsupported (why : String)
 deriving Repr, Inhabited
 
-inductive CStmt
-  | assign (v : CVar) (e : CExp)
-  | ite (c : CExp) (t e : List CStmt)
-  | ret (e : CExp)
-  | expr (e : CExp)
+inductive KStmt
+  | assign (v : KVar) (e : KExp)
+  | ite (c : KExp) (t e : List KStmt)
+  | ret (e : KExp)
+  | expr (e : KExp)
   | unsupported (why : String)
 deriving Repr, Inhabited
 
-inductive CV
+inductive KV
   | py (v : PyVal)
   | bool (b : Bool)
   | none
   | maybe (m : Option Out)                   -- what a lookup answers
   | res (r : Out)                            -- a `Valid` / `Invalid` object
-  | coro (d : CV)                            -- a coroutine object; `await` yields `d`
+  | coro (d : KV)                            -- a coroutine object; `await` yields `d`
 deriving Inhabited
 
-structure CEnv where
-  cacheResult : CV := .none
-  result : CV := .none
+structure KEnv where
+  cacheResult : KV := .none
+  result : KV := .none
 
-def CEnv.get (e : CEnv) : CVar → CV
+def KEnv.get (e : KEnv) : KVar → KV
   | .cacheResult => e.cacheResult | .result => e.result
 
-def CEnv.set (e : CEnv) (v : CVar) (d : CV) : CEnv :=
+def KEnv.set (e : KEnv) (v : KVar) (d : KV) : KEnv :=
   match v with
   | .cacheResult => { e with cacheResult := d } | .result => { e with result := d }
 
-inductive CErr
+inductive KErr
   | exn (e : Exn)
   | stuck (why : String)
 deriving Inhabited
 
-structure CSt where
-  env : CEnv
+structure KSt where
+  env : KEnv
   store : Store
   tr : List CEv
 
-abbrev CM (α : Type) := Except (CErr × CSt) (α × CSt)
+abbrev KM (α : Type) := Except (KErr × KSt) (α × KSt)
 
 /-- the wrapped validator, entered through `__call__` (`.sync`) or `validate_async` (`.async`) -/
-def callBare (bare : Mode → PyVal → Out) (m : Mode) (y : PyVal) (st : CSt) : CM CV :=
+def callBare (bare : Mode → PyVal → Out) (m : Mode) (y : PyVal) (st : KSt) : KM KV :=
   let st' := { st with tr := st.tr ++ [.run m] }
   match bare m y with
   | .raised e => .error (.exn e, st')
   | r => .ok (.res r, st')
 
-def CExp.eval (keq : PyVal → PyVal → Bool) (bare : Mode → PyVal → Out) (x : PyVal) (st : CSt) : CExp → CM CV
+def KExp.eval (keq : PyVal → PyVal → Bool) (bare : Mode → PyVal → Out) (x : PyVal) (st : KSt) : KExp → KM KV
   | .var v => .ok (st.env.get v, st)
   | .val => .ok (.py x, st)
   | .selfMeth1 m a =>
@@ -132,17 +132,17 @@ def CExp.eval (keq : PyVal → PyVal → Bool) (bare : Mode → PyVal → Out) (
     | .ok (_, st) => .error (.stuck "await of a non-awaitable", st)
   | .unsupported why => .error (.stuck why, st)
 
-inductive CFlow
-  | next (st : CSt)
-  | returned (d : CV) (st : CSt)
+inductive KFlow
+  | next (st : KSt)
+  | returned (d : KV) (st : KSt)
 
-def ctruthy : CV → Option Bool
+def ktruthy : KV → Option Bool
   | .bool b => some b
   | .none => some false
   | _ => Option.none
 
 mutual
-def CStmt.exec (keq : PyVal → PyVal → Bool) (bare : Mode → PyVal → Out) (x : PyVal) (st : CSt) : CStmt → Except (CErr × CSt) CFlow
+def KStmt.exec (keq : PyVal → PyVal → Bool) (bare : Mode → PyVal → Out) (x : PyVal) (st : KSt) : KStmt → Except (KErr × KSt) KFlow
   | .assign v e =>
     match e.eval keq bare x st with
     | .error err => .error err
@@ -151,10 +151,10 @@ def CStmt.exec (keq : PyVal → PyVal → Bool) (bare : Mode → PyVal → Out) 
     match c.eval keq bare x st with
     | .error err => .error err
     | .ok (d, st) =>
-      match ctruthy d with
+      match ktruthy d with
       | none => .error (.stuck "truth value", st)
-      | some true => CStmt.execL keq bare x st t
-      | some false => CStmt.execL keq bare x st e
+      | some true => KStmt.execL keq bare x st t
+      | some false => KStmt.execL keq bare x st e
   | .ret e =>
     match e.eval keq bare x st with
     | .error err => .error err
@@ -166,20 +166,20 @@ def CStmt.exec (keq : PyVal → PyVal → Bool) (bare : Mode → PyVal → Out) 
     | .ok (_, st) => .ok (.next st)
   | .unsupported why => .error (.stuck why, st)
 termination_by structural s => s
-def CStmt.execL (keq : PyVal → PyVal → Bool) (bare : Mode → PyVal → Out) (x : PyVal) (st : CSt) : List CStmt → Except (CErr × CSt) CFlow
+def KStmt.execL (keq : PyVal → PyVal → Bool) (bare : Mode → PyVal → Out) (x : PyVal) (st : KSt) : List KStmt → Except (KErr × KSt) KFlow
   | [] => .ok (.next st)
   | s :: rest =>
     match s.exec keq bare x st with
     | .error err => .error err
-    | .ok (.next st) => CStmt.execL keq bare x st rest
+    | .ok (.next st) => KStmt.execL keq bare x st rest
     | .ok (.returned d st) => .ok (.returned d st)
 termination_by structural l => l
 end
 
 /-- run a method body on input `x` over store `s`: the new store, the outcome, what was observed -/
-def runCache (keq : PyVal → PyVal → Bool) (bare : Mode → PyVal → Out) (s : Store) (body : List CStmt) (x : PyVal) :
+def runCache (keq : PyVal → PyVal → Bool) (bare : Mode → PyVal → Out) (s : Store) (body : List KStmt) (x : PyVal) :
     Option (Store × Out × List CEv) :=
-  match CStmt.execL keq bare x { env := {}, store := s, tr := [] } body with
+  match KStmt.execL keq bare x { env := {}, store := s, tr := [] } body with
   | .error (.exn e, st) => some (st.store, .raised e, st.tr)
   | .error (.stuck _, _) => none
   | .ok (.returned (.res r) st) => some (st.store, r, st.tr)
